@@ -64,6 +64,7 @@ def sort_of(t):
     elif k == 'bool': s = (z3.BoolSort(),)
     elif k == 'regexp': s = (Regexp,)
     elif k == 'text': s = (Text,)
+    elif k == 'lang': s = (z3.DeclareSort('Lang'),)
     elif k == 'none':
         d = z3.Datatype('NoneT'); d.declare('none'); d = d.create(); s = (d, d.none)
     elif k == 'set': s = (z3.ArraySort(sort_of(t.args[0]), z3.BoolSort()),)
@@ -202,7 +203,7 @@ def word_lit(atoms):
 
 def is_canonical(t):
     """may be used as set element / map key (term identity == value equality)"""
-    if t.kind in ('atom', 'word', 'int', 'bool', 'regexp', 'none', 'set', 'text'): return True
+    if t.kind in ('atom', 'word', 'int', 'bool', 'regexp', 'none', 'set', 'text', 'lang'): return True
     if t.kind in ('tup',): return all(is_canonical(a) for a in t.args)
     if t.kind == 'opt': return is_canonical(t.args[0])
     return False
